@@ -43,7 +43,6 @@ Notation nmM := (nm ++ "_data")%string.
 
 Hypothesis HIsubs : i_subs NO I = [].
 Hypothesis HIman : i_managed NO I = [(key, M)].
-Hypothesis Htop : i_sub NO I = false.
 Hypothesis HplainM : has_dot nmM = false /\ forall q, candle_attr NO q nmM = None.
 
 Notation setkI := (setk NO I).
@@ -60,9 +59,22 @@ Lemma G_pres d w v : G d -> G (setkI (slotM d w) v).
 Proof.
   unfold G. intros H.
   assert (E : inds NO (p (slotM d w)) = inds NO (p d)) by (destruct w; reflexivity).
-  unfold EngineProofs.setk, with_own_dict, EngineProofs.own, own_dict. cbn [p]. rewrite Htop. cbn [inds].
+  unfold EngineProofs.setk, with_own_dict, EngineProofs.own, own_dict. cbn [p].
+  destruct (i_sub NO I); cbn [inds]; [rewrite E; exact H|].
   rewrite alist_get_set_other by apply Hname. rewrite E. exact H.
 Qed.
+
+(* the helper's entry read back after both writes *)
+Lemma rbc_data_after_I (c : cd) w v : G c -> reading_by_candle NO (p (setkI (setkM c w) v)) nmM = Ok w.
+Proof.
+  intros Hg. destruct HplainM as [Hd Ha]. unfold reading_by_candle. rewrite Hd, Ha.
+  pose proof (G_pres c (Some w) v Hg) as Hg'. cbn [EngineProofs.slot] in Hg'. unfold G in Hg'. rewrite Hg'.
+  unfold EngineProofs.setk, with_own_dict, EngineProofs.own, own_dict. cbn [p i_sub dataM sub_ inds subs i_name].
+  destruct (i_sub NO I); cbn [subs].
+  - rewrite alist_get_set_other by apply Hname. rewrite alist_get_set_same. reflexivity.
+  - rewrite alist_get_set_same. reflexivity.
+Qed.
+
 
 Lemma G_merged ts a b : G {| t := ts; p := Candle.merge NO a b |}.
 Proof. reflexivity. Qed.
@@ -522,12 +534,7 @@ Proof.
   destruct (rsiW a d) as [[[g l]|]|]; cbn [bind] in *; [exact Er| |discriminate].
   rewrite (fresh_reads_none a d Hf Hg) in Er. cbn [bind truthy] in Er. inversion Er; subst r. cbn [fst snd EngineProofs.slot].
   rewrite (reading_mid NO a []).
-  assert (E : reading_by_candle NO (p (setkI (setkM d VNone) (rnd_ NO I VNone))) nmM = Ok VNone).
-  { destruct HplainM as [Hd Ha]. unfold reading_by_candle. rewrite Hd, Ha.
-    pose proof (G_pres d (Some VNone) (rnd_ NO I VNone) Hg) as Hg'. cbn [EngineProofs.slot] in Hg'. unfold G in Hg'. rewrite Hg'.
-    unfold EngineProofs.setk at 1. unfold with_own_dict. cbn [p]. rewrite Htop. cbn [subs].
-    unfold EngineProofs.setk, with_own_dict, EngineProofs.own, own_dict. cbn [p i_sub dataM sub_ subs i_name].
-    rewrite alist_get_set_same. reflexivity. }
+  assert (E : reading_by_candle NO (p (setkI (setkM d VNone) (rnd_ NO I VNone))) nmM = Ok VNone) by (apply rbc_data_after_I; exact Hg).
   rewrite E. cbn [bind truthy]. reflexivity.
 Qed.
 End RSI.
